@@ -20,9 +20,15 @@ CHECKS = {
  "C12": ("fault_enumeration", "runtime fault injection on a scripted fake OS socket (segmentation schedules x close/timeout/reset points) with byte-equality and termination oracles",
          "The real Socket.receive/Socket.send run over a fake OS socket whose schedule enumerates every subset of a boundary cut-set as split points, all uniform chunk sizes 1..256 and random compositions for frames at every length class, and for each frame every prefix class x {peer close, timeout, reset, OSError}; send is driven through every partial-send pattern, 0-byte sends and errors after j bytes.",
          "Enumeration is exhaustive over the stated cut-set, not over all 2^(n-1) compositions; one frame in flight.", "4 C12"),
+ "C14": ("exploration", "runtime router-journal monitor in an independent reference target + reply-value oracle",
+         "The real driver sends generated generic messages (all three transports, every route_path form, int/bytes path arguments of 8/16/32 bits, every data length 0..64 and random to 400) to a reference target over a generated chassis; the target journals the (transport, service, path, data, route) it actually received and chooses the reply; journal and returned Tag are compared with the request and the reply. Helpers are checked against a controller shell with a frozen clock.",
+         "Reference target per DESIGN.md Appendix A; direct-UCMM route appending is by design.", "4 C14"),
  "C15": ("exploration", "runtime differential: library parser vs reference recogniser over generated spellings and single-edit corruptions",
          "Routes from the documented grammar are spelled 8 ways each and must all yield the reference host/port/route bytes; every single-character edit of sampled spellings is classified by an independent recogniser (in grammar / listed rejection class / don't-care) and the library's outcome compared; driver constructors are checked for the shortcut rules including cross-instance aliasing.",
          "Grammar and rejection classes as listed in the property; unusual hosts, upper-case aliases, leading zeros, numeric ports outside 1..14 are don't-cares.", "4 C15"),
+ "C16": ("exploration", "runtime differential: identities configured in the reference target vs dicts returned by every entry point",
+         "Identities over the whole field domain are configured in the reference target (TCP ListIdentity, Identity object via UCMM and Unconnected Send, UDP discovery with 0..5 replies) and every field returned by list_identity/_list_identity/get_module_info/get_plc_info/discover is compared; ModuleIdentityObject encode/decode is checked for layout and round trip.",
+         "Vendor/product-type texts come from the library's own tables.", "4 C16"),
  "C19": ("exploration", "exhaustive runtime enumeration of every lookup against the class bodies",
          "Every EnumMap table found by walking the package is exercised exhaustively (all members x 9 casing classes, all codes, status 0..255, all extended pairs) against an oracle derived from the class bodies; the quantifier is finite, so the run is complete (exhaustive: true).",
          "Oracle reads members from vars(cls); trusts Python dict/str semantics.", "4 C19"),
